@@ -309,4 +309,16 @@ def arriveCmd (a : Nat) : DecState → List Byte → List (List Byte) → Option
       arriveCmd a (decodeCommand st [(a, store ++ p)] false).st (decodeCommand st [(a, store ++ p)] false).store ps
     else some (decodeCommand st [(a, store ++ p)] false)
 
+/-- model of a receiver that keeps calling the decoder on the same storage (one segment at base alignment
+    `a`) from the state the previous call left behind: the messages delivered by the first calls that return
+    1 (at most `n` calls) -/
+def decodeAll (v : Variant) (a : Nat) : Nat → DecState → List Byte → List (List Byte)
+  | 0, _, _ => []
+  | n + 1, st, store =>
+    if (decodeV v st [(a, store)] false).ret = .val 1 then
+      ((decodeV v st [(a, store)] false).store.drop (decodeV v st [(a, store)] false).st.pos).take
+          (decodeV v st [(a, store)] false).st.len ::
+        decodeAll v a n (decodeV v st [(a, store)] false).st (decodeV v st [(a, store)] false).store
+    else []
+
 end Mpt.Codec
